@@ -63,12 +63,20 @@ def do_copy(o, kind):
     return o.clone_traits(copy="deep")
 
 
+PVLOG = []           # calls of the handler the driver keeps on the deferred attribute pv of the CURRENT object
+
+
+def _pv_handler():
+    PVLOG.append(1)
+
+
 def step(o, dyn, op, v):
     from traits.trait_errors import TraitError
     cv = "bad" if v == BAD else v
     pre = proj(o)
     obs0 = o.obs_count
     pobs0 = o.post_count
+    pvn0 = len(PVLOG)
     dyn0 = len(dyn)
     exc = ""
     try:
@@ -127,7 +135,7 @@ def step(o, dyn, op, v):
     except Exception as e:
         exc = type(e).__name__
     return {"op": op, "v": v, "pre": pre, "post": proj(o), "exc": exc, "obs": o.obs_count - obs0, "dyn": len(dyn) - dyn0,
-            "pobs": o.post_count - pobs0, "total": o.total, "total2": o.total2, "pvread": o.pv}
+            "pobs": o.post_count - pobs0, "total": o.total, "total2": o.total2, "pvread": o.pv, "pvn": len(PVLOG) - pvn0}
 
 
 OPS = ["kids_child", "kids_new", "kids_dup", "n_assign", "n_assign", "tmp_assign", "ro_assign", "xs_append", "xs_append", "xs_assign", "nested_append", "nested_inner", "dl_set",
@@ -141,6 +149,7 @@ def run_history(rnd, steps, t):
     dyn = []
     handler = lambda: dyn.append(1)
     o.on_trait_change(handler, "xs_items")
+    o.on_trait_change(_pv_handler, "pv")
     out = []
     for s in range(steps):
         u = rnd.random()
@@ -160,7 +169,9 @@ def run_history(rnd, steps, t):
                 shared = sum(1 for x in containers(c, deep) if id(x) in ids)
                 rec.update(post=proj(c), sameclass=1 if type(c) is type(o) else 0, shared=shared, total=c.total,
                            total2=c.total2, orig_after=proj(o), pvread=c.pv)
+                o.on_trait_change(_pv_handler, "pv", remove=True)
                 o = c
+                o.on_trait_change(_pv_handler, "pv")
                 dyn = []
                 handler = (lambda d: (lambda: d.append(1)))(dyn)
                 o.on_trait_change(handler, "xs_items")
